@@ -1,6 +1,982 @@
 package main
 
-// tryReplay: concretise the counterexample and run it against the real code.
+// Counterexample replay: concretise the solver's model for the function's
+// parameters (through capped get-value queries), build the inputs in an
+// in-package test injected with `go test -overlay`, run the REAL function and
+// compare what it does with what the model predicts.
+
+import (
+	"bytes"
+	"encoding/json"
+	"fmt"
+	"go/types"
+	"os"
+	"os/exec"
+	"path/filepath"
+	"sort"
+	"strconv"
+	"strings"
+	"time"
+
+	"golang.org/x/tools/go/ssa"
+)
+
+type replayInfo struct {
+	fn     *ssa.Function
+	params []*Val
+	result *Val
+}
+
+// node is a concretised value.
+type node struct {
+	Kind   string           `json:"kind"` // int uint bool string slice ptr iface nil opaque unsupported
+	Int    string           `json:"int,omitempty"`
+	Bool   bool             `json:"bool,omitempty"`
+	Str    []int            `json:"str,omitempty"`
+	Elems  []*node          `json:"elems,omitempty"`
+	Ref    int64            `json:"ref,omitempty"`
+	Fields map[string]*node `json:"fields,omitempty"`
+	Dyn    string           `json:"dyn,omitempty"`
+	Val    *node            `json:"val,omitempty"`
+	Note   string           `json:"note,omitempty"`
+}
+
+const (
+	capStr   = 32
+	capSlice = 4
+	capDepth = 4
+)
+
+type modelReader struct {
+	w      *World
+	solver string
+	query  string
+	dir    string
+	cache  map[string]sexp
+	nq     int
+	dyn    map[string]types.Type
+	cons   map[string]bool // size constraints for every slice / string visited
+	over   bool
+}
+
+// overCap: the model uses a value too large to replay; the constraint asks
+// the solver for a smaller counterexample.
+type overCap struct{ constraint string }
+
+func (e *overCap) Error() string { return "over the cap: " + e.constraint }
+
+// ---- s-expressions
+
+type sexp struct {
+	atom string
+	list []sexp
+	isL  bool
+}
+
+func parseSexps(s string) []sexp {
+	var out []sexp
+	p := 0
+	var parse func() (sexp, bool)
+	skip := func() {
+		for p < len(s) {
+			c := s[p]
+			if c == ' ' || c == '\n' || c == '\t' || c == '\r' {
+				p++
+			} else if c == ';' {
+				for p < len(s) && s[p] != '\n' {
+					p++
+				}
+			} else {
+				break
+			}
+		}
+	}
+	parse = func() (sexp, bool) {
+		skip()
+		if p >= len(s) {
+			return sexp{}, false
+		}
+		if s[p] == '(' {
+			p++
+			e := sexp{isL: true}
+			for {
+				skip()
+				if p >= len(s) {
+					return e, true
+				}
+				if s[p] == ')' {
+					p++
+					return e, true
+				}
+				c, ok := parse()
+				if !ok {
+					return e, true
+				}
+				e.list = append(e.list, c)
+			}
+		}
+		if s[p] == ')' {
+			p++
+			return sexp{}, false
+		}
+		st := p
+		if s[p] == '|' {
+			p++
+			for p < len(s) && s[p] != '|' {
+				p++
+			}
+			p++
+			return sexp{atom: s[st:p]}, true
+		}
+		if s[p] == '"' {
+			p++
+			for p < len(s) && s[p] != '"' {
+				p++
+			}
+			p++
+			return sexp{atom: s[st:p]}, true
+		}
+		for p < len(s) && !strings.ContainsRune(" \n\t\r()", rune(s[p])) {
+			p++
+		}
+		return sexp{atom: s[st:p]}, true
+	}
+	for {
+		e, ok := parse()
+		if !ok {
+			if p >= len(s) {
+				break
+			}
+			continue
+		}
+		out = append(out, e)
+	}
+	return out
+}
+
+func (e sexp) String() string {
+	if !e.isL {
+		return e.atom
+	}
+	var ps []string
+	for _, c := range e.list {
+		ps = append(ps, c.String())
+	}
+	return "(" + strings.Join(ps, " ") + ")"
+}
+
+func (e sexp) intVal() (int64, bool) {
+	if !e.isL {
+		if strings.HasPrefix(e.atom, "#x") {
+			v, err := strconv.ParseUint(e.atom[2:], 16, 64)
+			return int64(v), err == nil
+		}
+		if strings.HasPrefix(e.atom, "#b") {
+			v, err := strconv.ParseUint(e.atom[2:], 2, 64)
+			return int64(v), err == nil
+		}
+		v, err := strconv.ParseInt(e.atom, 10, 64)
+		return v, err == nil
+	}
+	if len(e.list) == 2 && e.list[0].atom == "-" {
+		v, ok := e.list[1].intVal()
+		return -v, ok
+	}
+	if len(e.list) == 3 && e.list[0].atom == "_" && strings.HasPrefix(e.list[1].atom, "bv") {
+		v, err := strconv.ParseUint(e.list[1].atom[2:], 10, 64)
+		return int64(v), err == nil
+	}
+	return 0, false
+}
+
+func (e sexp) uintStr() (string, bool) {
+	if !e.isL {
+		if strings.HasPrefix(e.atom, "#x") {
+			v, err := strconv.ParseUint(e.atom[2:], 16, 64)
+			return strconv.FormatUint(v, 10), err == nil
+		}
+		if strings.HasPrefix(e.atom, "#b") {
+			v, err := strconv.ParseUint(e.atom[2:], 2, 64)
+			return strconv.FormatUint(v, 10), err == nil
+		}
+	}
+	if e.isL && len(e.list) == 3 && e.list[0].atom == "_" && strings.HasPrefix(e.list[1].atom, "bv") {
+		return e.list[1].atom[2:], true
+	}
+	return "", false
+}
+
+// ---- model queries
+
+func solverArgv(name, file string, sec int) []string {
+	for _, s := range solvers {
+		if s.name == name {
+			return s.argv(file, sec)
+		}
+	}
+	return solvers[0].argv(file, sec)
+}
+
+// eval asks the solver for the values of the given terms.
+func (m *modelReader) eval(terms []string) (map[string]sexp, error) {
+	out := map[string]sexp{}
+	var need []string
+	for _, t := range terms {
+		if v, ok := m.cache[t]; ok {
+			out[t] = v
+		} else {
+			need = append(need, t)
+		}
+	}
+	if len(need) == 0 {
+		return out, nil
+	}
+	m.nq++
+	file := filepath.Join(m.dir, fmt.Sprintf("model%d.smt2", m.nq))
+	var sb strings.Builder
+	sb.WriteString(m.query)
+	for i := 0; i < len(need); i += 1 {
+		fmt.Fprintf(&sb, "(get-value (%s))\n", need[i])
+	}
+	os.WriteFile(file, []byte(sb.String()), 0o644)
+	argv := solverArgv(m.solver, file, 30)
+	cmd := exec.Command(argv[0], argv[1:]...)
+	var ob bytes.Buffer
+	cmd.Stdout = &ob
+	cmd.Stderr = &ob
+	cmd.Run()
+	txt := ob.String()
+	first := strings.TrimSpace(strings.SplitN(txt, "\n", 2)[0])
+	if first != "sat" {
+		return nil, fmt.Errorf("model re-query answered %q", first)
+	}
+	rest := txt[strings.Index(txt, "\n")+1:]
+	exps := parseSexps(rest)
+	k := 0
+	for _, e := range exps {
+		if !e.isL || len(e.list) != 1 || !e.list[0].isL || len(e.list[0].list) != 2 {
+			continue
+		}
+		if k >= len(need) {
+			break
+		}
+		v := e.list[0].list[1]
+		m.cache[need[k]] = v
+		out[need[k]] = v
+		k++
+	}
+	if k != len(need) {
+		return nil, fmt.Errorf("model re-query: got %d of %d values; output: %s", k, len(need), trunc(rest, 300))
+	}
+	return out, nil
+}
+
+func (m *modelReader) evalInt(term string) (int64, error) {
+	vs, err := m.eval([]string{term})
+	if err != nil {
+		return 0, err
+	}
+	v, ok := vs[term].intVal()
+	if !ok {
+		return 0, fmt.Errorf("not an integer: %s = %s", term, vs[term])
+	}
+	return v, nil
+}
+
+func h0(key string) string { return heapSym(key, "0") }
+
+// concretise builds the node for the value `term` of Go type t (entry heap).
+func (m *modelReader) concretise(term string, t types.Type, depth int, objs map[string]*node) (*node, error) {
+	w := m.w
+	t = types.Unalias(t)
+	if depth > capDepth {
+		return &node{Kind: "unsupported", Note: "depth cap"}, nil
+	}
+	switch u := t.Underlying().(type) {
+	case *types.Basic:
+		switch {
+		case u.Info()&types.IsBoolean != 0:
+			vs, err := m.eval([]string{term})
+			if err != nil {
+				return nil, err
+			}
+			return &node{Kind: "bool", Bool: vs[term].atom == "true"}, nil
+		case u.Info()&types.IsString != 0:
+			n, err := m.evalInt("(s.len " + term + ")")
+			if err != nil {
+				return nil, err
+			}
+			m.cons[fmt.Sprintf("(<= (s.len %s) %d)", term, capStr/2)] = true
+			if n > capStr {
+				m.over = true
+				return &node{Kind: "string", Str: []int{}}, nil
+			}
+			nd := &node{Kind: "string", Str: []int{}}
+			var ts []string
+			for i := int64(0); i < n; i++ {
+				ts = append(ts, fmt.Sprintf("(bytes (s.arr %s) (+ (s.off %s) %d))", term, term, i))
+			}
+			vs, err := m.eval(ts)
+			if err != nil {
+				return nil, err
+			}
+			for _, tt := range ts {
+				b, _ := vs[tt].intVal()
+				nd.Str = append(nd.Str, int(b))
+			}
+			return nd, nil
+		case u.Info()&types.IsInteger != 0:
+			vs, err := m.eval([]string{term})
+			if err != nil {
+				return nil, err
+			}
+			v := vs[term]
+			if w.sortOf(t) == SInt {
+				n, ok := v.intVal()
+				if !ok {
+					return nil, fmt.Errorf("bad int %s", v)
+				}
+				return &node{Kind: "int", Int: strconv.FormatInt(n, 10)}, nil
+			}
+			us, ok := v.uintStr()
+			if !ok {
+				return nil, fmt.Errorf("bad bit-vector %s", v)
+			}
+			if isSigned(t) {
+				wd := w.sortOf(t).BVWidth()
+				uv, _ := strconv.ParseUint(us, 10, 64)
+				sv := int64(uv)
+				if wd < 64 && uv >= 1<<uint(wd-1) {
+					sv = int64(uv) - int64(1)<<uint(wd)
+				}
+				return &node{Kind: "int", Int: strconv.FormatInt(sv, 10)}, nil
+			}
+			return &node{Kind: "uint", Int: us}, nil
+		}
+	case *types.Slice:
+		arr, err := m.evalInt("(sl.arr " + term + ")")
+		if err != nil {
+			return nil, err
+		}
+		if arr == 0 {
+			return &node{Kind: "nil"}, nil
+		}
+		n, err := m.evalInt("(sl.len " + term + ")")
+		if err != nil {
+			return nil, err
+		}
+		m.cons[fmt.Sprintf("(<= (sl.len %s) %d)", term, capSlice-1)] = true
+		if n > capSlice {
+			m.over = true
+			return &node{Kind: "nil"}, nil
+		}
+		if w.sortOf(u.Elem()) == "" {
+			return &node{Kind: "unsupported", Note: "slice of compound values"}, nil
+		}
+		key := w.elemHeap(u.Elem())
+		nd := &node{Kind: "slice", Elems: []*node{}}
+		if !strings.Contains(m.query, "(declare-const "+h0(key)+" ") {
+			for i := int64(0); i < n; i++ {
+				nd.Elems = append(nd.Elems, zeroNode(w, u.Elem()))
+			}
+			return nd, nil
+		}
+		for i := int64(0); i < n; i++ {
+			et := fmt.Sprintf("(select (select %s (sl.arr %s)) (+ (sl.off %s) %d))", h0(key), term, term, i)
+			en, err := m.concretise(et, u.Elem(), depth+1, objs)
+			if err != nil {
+				return nil, err
+			}
+			nd.Elems = append(nd.Elems, en)
+		}
+		return nd, nil
+	case *types.Pointer:
+		ref, err := m.evalInt(term)
+		if err != nil {
+			return nil, err
+		}
+		if ref == 0 {
+			return &node{Kind: "nil"}, nil
+		}
+		st, ok := w.repoStruct(u.Elem())
+		if !ok {
+			return &node{Kind: "unsupported", Note: "pointer to " + u.Elem().String()}, nil
+		}
+		id := fmt.Sprintf("%s@%d", typeStr(u.Elem()), ref)
+		if o, ok := objs[id]; ok {
+			return &node{Kind: "ptr", Ref: ref, Dyn: typeStr(u.Elem()), Note: "shared:" + o.Note}, nil
+		}
+		nd := &node{Kind: "ptr", Ref: ref, Dyn: typeStr(u.Elem()), Fields: map[string]*node{}}
+		objs[id] = nd
+		if err := m.fields(term, structPrefix(u.Elem()), st, nd, depth, objs); err != nil {
+			return nil, err
+		}
+		return nd, nil
+	case *types.Interface:
+		tag, err := m.evalInt("(i.tag " + term + ")")
+		if err != nil {
+			return nil, err
+		}
+		if tag == 0 {
+			return &node{Kind: "nil"}, nil
+		}
+		for name, tg := range w.tags {
+			if int64(tg) == tag {
+				for _, cand := range w.tagTypes {
+					if typeStr(cand) == name {
+						if _, isPtr := types.Unalias(cand).Underlying().(*types.Pointer); isPtr {
+							v, err := m.concretise("(i.ref "+term+")", cand, depth+1, objs)
+							if err != nil {
+								return nil, err
+							}
+							m.dyn[name] = cand
+							return &node{Kind: "iface", Dyn: name, Val: v}, nil
+						}
+					}
+				}
+				return &node{Kind: "unsupported", Note: "interface holding " + name}, nil
+			}
+		}
+		return &node{Kind: "unsupported", Note: "interface with unknown dynamic type"}, nil
+	case *types.Map:
+		ref, err := m.evalInt(term)
+		if err != nil {
+			return nil, err
+		}
+		if ref == 0 {
+			return &node{Kind: "nil"}, nil
+		}
+		return &node{Kind: "unsupported", Note: "non-nil map"}, nil
+	case *types.Struct:
+		if _, ok := w.repoStruct(t); !ok {
+			return &node{Kind: "opaque", Note: typeStr(t)}, nil
+		}
+	}
+	return &node{Kind: "unsupported", Note: "type " + t.String()}, nil
+}
+
+func (m *modelReader) fields(ref, prefix string, st *types.Struct, nd *node, depth int, objs map[string]*node) error {
+	w := m.w
+	for i := 0; i < st.NumFields(); i++ {
+		f := st.Field(i)
+		if sub, ok := w.repoStruct(f.Type()); ok {
+			sn := &node{Kind: "struct", Fields: map[string]*node{}}
+			if err := m.fields(ref, prefix+"."+f.Name(), sub, sn, depth, objs); err != nil {
+				return err
+			}
+			nd.Fields[f.Name()] = sn
+			continue
+		}
+		key := w.fieldHeapP(prefix, st, i)
+		if !strings.Contains(m.query, "(declare-const "+h0(key)+" ") {
+			// the VC never reads this field: any value will do, take the zero value
+			nd.Fields[f.Name()] = zeroNode(w, f.Type())
+			continue
+		}
+		fn, err := m.concretise(fmt.Sprintf("(select %s %s)", h0(key), ref), f.Type(), depth+1, objs)
+		if err != nil {
+			return err
+		}
+		nd.Fields[f.Name()] = fn
+	}
+	return nil
+}
+
+func hasUnsupported(n *node) string {
+	if n == nil {
+		return ""
+	}
+	if n.Kind == "unsupported" {
+		return n.Note
+	}
+	for _, e := range n.Elems {
+		if s := hasUnsupported(e); s != "" {
+			return s
+		}
+	}
+	for _, k := range sortedNodeKeys(n.Fields) {
+		if s := hasUnsupported(n.Fields[k]); s != "" {
+			return k + ": " + s
+		}
+	}
+	return hasUnsupported(n.Val)
+}
+
+func sortedNodeKeys(m map[string]*node) []string {
+	ks := make([]string, 0, len(m))
+	for k := range m {
+		ks = append(ks, k)
+	}
+	sort.Strings(ks)
+	return ks
+}
+
+// tryReplay returns whether the counterexample was confirmed on the real code.
 func tryReplay(w *World, x *Result) (bool, map[string]any) {
-	return false, map[string]any{"status": "not attempted"}
+	detail := map[string]any{}
+	ri := x.vcReplay
+	if ri == nil || ri.fn == nil {
+		detail["status"] = "no replay: not a function obligation"
+		return false, detail
+	}
+	if x.Query == "" || x.Solver == "" {
+		detail["status"] = "no replay: no model"
+		return false, detail
+	}
+	dir, _ := os.MkdirTemp("", "govc-replay-")
+	defer os.RemoveAll(dir)
+	m := &modelReader{w: w, solver: strings.TrimSuffix(x.Solver, " (cached)"), query: x.Query, dir: dir, cache: map[string]sexp{}, dyn: map[string]types.Type{}, cons: map[string]bool{}}
+	fn := ri.fn
+	var objs map[string]*node
+	var args []*node
+	baseQuery := strings.TrimSuffix(strings.TrimSpace(x.Query), "(check-sat)")
+	var extra []string
+	for attempt := 0; ; attempt++ {
+		m.query = baseQuery + strings.Join(extra, "\n") + "\n(check-sat)\n"
+		m.cache = map[string]sexp{}
+		m.over = false
+		objs = map[string]*node{}
+		args = nil
+		var oc *overCap
+		for i, p := range fn.Params {
+			if ri.params[i].T == nil {
+				detail["status"] = "no replay: compound parameter " + p.Name()
+				return false, detail
+			}
+			n, err := m.concretise(ri.params[i].T.String(), p.Type(), 0, objs)
+			if err != nil {
+				if e, ok := err.(*overCap); ok {
+					oc = e
+					break
+				}
+				detail["status"] = "no replay: " + err.Error()
+				return false, detail
+			}
+			if s := hasUnsupported(n); s != "" {
+				detail["status"] = "no replay: parameter " + p.Name() + " not concretisable (" + s + ")"
+				return false, detail
+			}
+			args = append(args, n)
+		}
+		if oc == nil && !m.over {
+			break
+		}
+		if attempt >= 6 {
+			detail["status"] = "no replay: no small counterexample found"
+			return false, detail
+		}
+		extra = nil
+		for c := range m.cons {
+			extra = append(extra, "(assert "+c+")")
+		}
+		sort.Strings(extra)
+	}
+	detail["size_constraints"] = extra
+	detail["inputs"] = args
+	inputIDs := map[string]bool{}
+	for id := range objs {
+		inputIDs[id] = true
+	}
+	// predicted result (scalars only)
+	var predicted []*node
+	if ri.result != nil {
+		rs := []*Val{ri.result}
+		if ri.result.Fs != nil && fn.Signature.Results().Len() > 1 {
+			rs = ri.result.Fs
+		}
+		for k, r := range rs {
+			if r.T == nil {
+				predicted = append(predicted, &node{Kind: "unsupported"})
+				continue
+			}
+			n, err := m.concretise(r.T.String(), fn.Signature.Results().At(k).Type(), capDepth, objs)
+			if err != nil {
+				n = &node{Kind: "unsupported", Note: err.Error()}
+			}
+			markFresh(n, inputIDs)
+			predicted = append(predicted, n)
+		}
+	}
+	detail["predicted_results"] = predicted
+	out, err := runReplayTest(w, fn, args, dir, m.dyn)
+	if err != nil {
+		detail["status"] = "replay could not run: " + err.Error()
+		return false, detail
+	}
+	detail["observed"] = out
+	isSafety := x.Obl.Kind == "safety"
+	if p, _ := out["panic"].(string); p != "" {
+		detail["status"] = "confirmed: the real function panics on the model's input: " + p
+		return true, detail
+	}
+	if isSafety {
+		detail["status"] = "not confirmed: no panic on the model's input"
+		return false, detail
+	}
+	// compare scalar results
+	obs, _ := out["results"].([]any)
+	if len(obs) != len(predicted) || len(predicted) == 0 {
+		detail["status"] = "not confirmed: results not comparable"
+		return false, detail
+	}
+	for k := range predicted {
+		pj, _ := json.Marshal(scalarView(predicted[k]))
+		oj, _ := json.Marshal(obs[k])
+		if predicted[k].Kind == "unsupported" || predicted[k].Kind == "opaque" {
+			detail["status"] = "not confirmed: predicted result not concretisable"
+			return false, detail
+		}
+		if string(pj) != string(oj) {
+			detail["status"] = fmt.Sprintf("not confirmed: real result %s differs from the model's %s (an abstracted library function behaves differently)", oj, pj)
+			return false, detail
+		}
+	}
+	detail["status"] = "confirmed: the real function returns exactly the result of the counterexample, for which the clause is false"
+	return true, detail
+}
+
+// scalarView is the comparable summary of a node (mirrors the test's encoder).
+func scalarView(n *node) any {
+	switch n.Kind {
+	case "int", "uint":
+		return n.Int
+	case "bool":
+		return n.Bool
+	case "string":
+		b := make([]byte, len(n.Str))
+		for i, c := range n.Str {
+			b[i] = byte(c)
+		}
+		return "s:" + string(b)
+	case "nil":
+		return "nil"
+	case "ptr":
+		if n.Dyn == "fresh" {
+			return "ptr:fresh"
+		}
+		return fmt.Sprintf("ptr:%s@%d", n.Dyn, n.Ref)
+	case "slice":
+		var es []any
+		for _, e := range n.Elems {
+			es = append(es, scalarView(e))
+		}
+		return es
+	case "iface":
+		return map[string]any{"dyn": n.Dyn, "val": scalarView(n.Val)}
+	}
+	return "?"
+}
+
+// ---------------------------------------------------------------- test generation
+
+func markFresh(n *node, inputIDs map[string]bool) {
+	if n == nil {
+		return
+	}
+	if n.Kind == "ptr" && !inputIDs[fmt.Sprintf("%s@%d", n.Dyn, n.Ref)] {
+		n.Dyn, n.Ref = "fresh", 0
+	}
+	for _, e := range n.Elems {
+		markFresh(e, inputIDs)
+	}
+	markFresh(n.Val, inputIDs)
+}
+
+func runReplayTest(w *World, fn *ssa.Function, args []*node, dir string, dyn map[string]types.Type) (map[string]any, error) {
+	pkg := fn.Pkg
+	if pkg == nil {
+		return nil, fmt.Errorf("function without package")
+	}
+	imports := map[string]string{}
+	qual := func(p *types.Package) string {
+		if p == pkg.Pkg {
+			return ""
+		}
+		imports[p.Path()] = p.Name()
+		return p.Name()
+	}
+	var typeExprs []string
+	for _, p := range fn.Params {
+		typeExprs = append(typeExprs, types.TypeString(p.Type(), qual))
+	}
+	argsJSON, _ := json.Marshal(args)
+	var call strings.Builder
+	recv := fn.Signature.Recv()
+	start := 0
+	if recv != nil {
+		fmt.Fprintf(&call, "a0.%s(", fn.Name())
+		start = 1
+	} else {
+		fmt.Fprintf(&call, "%s(", fn.Name())
+	}
+	for i := start; i < len(fn.Params); i++ {
+		if i > start {
+			call.WriteString(", ")
+		}
+		if fn.Signature.Variadic() && i == len(fn.Params)-1 {
+			fmt.Fprintf(&call, "a%d...", i)
+		} else {
+			fmt.Fprintf(&call, "a%d", i)
+		}
+	}
+	call.WriteString(")")
+	nres := fn.Signature.Results().Len()
+	var lhs []string
+	for i := 0; i < nres; i++ {
+		lhs = append(lhs, fmt.Sprintf("r%d", i))
+	}
+	var body strings.Builder
+	for i, te := range typeExprs {
+		fmt.Fprintf(&body, "\ta%d := zzBuild(reflect.TypeOf((*%s)(nil)).Elem(), zzArgs[%d]).Interface().(%s)\n", i, te, i, te)
+	}
+	// interface-typed parameters: Interface() of a nil interface value panics on the type assertion
+	if nres > 0 {
+		fmt.Fprintf(&body, "\t%s := %s\n", strings.Join(lhs, ", "), call.String())
+		for _, l := range lhs {
+			fmt.Fprintf(&body, "\tzzOut = append(zzOut, zzEnc(reflect.ValueOf(&%s).Elem()))\n", l)
+		}
+	} else {
+		fmt.Fprintf(&body, "\t%s\n", call.String())
+	}
+	var reg strings.Builder
+	for name, t := range dyn {
+		fmt.Fprintf(&reg, "\tzzTypes[%q] = reflect.TypeOf((%s)(nil))\n", name, types.TypeString(t, qual))
+	}
+	var imp strings.Builder
+	for path, name := range imports {
+		fmt.Fprintf(&imp, "\t%s %q\n", name, path)
+	}
+	src := strings.NewReplacer("@PKG@", pkg.Pkg.Name(), "@IMPORTS@", imp.String(), "@ARGS@", strconv.Quote(string(argsJSON)), "@BODY@", body.String(), "@TYPES@", reg.String()).Replace(replayTemplate)
+	testFile := filepath.Join(dir, "zz_verif_replay_test.go")
+	if err := os.WriteFile(testFile, []byte(src), 0o644); err != nil {
+		return nil, err
+	}
+	pdir := ""
+	for path, p := range w.pkgs {
+		if path == pkg.Pkg.Path() && len(p.GoFiles) > 0 {
+			pdir = filepath.Dir(p.GoFiles[0])
+		}
+	}
+	if pdir == "" {
+		return nil, fmt.Errorf("package directory not found")
+	}
+	ov, _ := json.Marshal(map[string]any{"Replace": map[string]string{filepath.Join(pdir, "zz_verif_replay_test.go"): testFile}})
+	ovFile := filepath.Join(dir, "overlay.json")
+	os.WriteFile(ovFile, ov, 0o644)
+	cmd := exec.Command("go", "test", "-overlay", ovFile, "-vet=off", "-count=1", "-timeout", "60s", "-v", "-run", "^TestZZVerifReplay$", ".")
+	cmd.Dir = pdir
+	cmd.Env = append(os.Environ(), "GOFLAGS=-mod=mod", "GOPROXY=off", "GOSUMDB=off", "GOTOOLCHAIN=local")
+	var ob bytes.Buffer
+	cmd.Stdout = &ob
+	cmd.Stderr = &ob
+	done := make(chan error, 1)
+	go func() { done <- cmd.Run() }()
+	select {
+	case <-done:
+	case <-time.After(120 * time.Second):
+		cmd.Process.Kill()
+		return nil, fmt.Errorf("replay test timed out")
+	}
+	txt := ob.String()
+	i := strings.Index(txt, "ZZREPLAY:")
+	if i < 0 {
+		return nil, fmt.Errorf("replay test produced no result: %s", trunc(txt, 600))
+	}
+	line := txt[i+len("ZZREPLAY:"):]
+	if j := strings.Index(line, "\n"); j >= 0 {
+		line = line[:j]
+	}
+	var out map[string]any
+	if err := json.Unmarshal([]byte(line), &out); err != nil {
+		return nil, fmt.Errorf("replay output: %v", err)
+	}
+	return out, nil
+}
+
+const replayTemplate = `package @PKG@
+
+import (
+	"encoding/json"
+	"fmt"
+	"reflect"
+	"strconv"
+	"testing"
+	"unsafe"
+@IMPORTS@)
+
+type zzNode struct {
+	Kind   string             ` + "`json:\"kind\"`" + `
+	Int    string             ` + "`json:\"int\"`" + `
+	Bool   bool               ` + "`json:\"bool\"`" + `
+	Str    []int              ` + "`json:\"str\"`" + `
+	Elems  []*zzNode          ` + "`json:\"elems\"`" + `
+	Ref    int64              ` + "`json:\"ref\"`" + `
+	Fields map[string]*zzNode ` + "`json:\"fields\"`" + `
+	Dyn    string             ` + "`json:\"dyn\"`" + `
+	Val    *zzNode            ` + "`json:\"val\"`" + `
+}
+
+var zzObjs = map[string]reflect.Value{}
+var zzIDs = map[uintptr]string{}
+var zzOut []any
+
+func zzSet(dst reflect.Value, v reflect.Value) {
+	if !dst.CanSet() {
+		dst = reflect.NewAt(dst.Type(), unsafe.Pointer(dst.UnsafeAddr())).Elem()
+	}
+	dst.Set(v)
+}
+
+func zzFill(sv reflect.Value, n *zzNode) {
+	for name, fn := range n.Fields {
+		f := sv.FieldByName(name)
+		if !f.IsValid() {
+			continue
+		}
+		if fn.Kind == "struct" {
+			ff := f
+			if !ff.CanSet() {
+				ff = reflect.NewAt(f.Type(), unsafe.Pointer(f.UnsafeAddr())).Elem()
+			}
+			zzFill(ff, fn)
+			continue
+		}
+		if fn.Kind == "opaque" {
+			continue
+		}
+		zzSet(f, zzBuild(f.Type(), fn))
+	}
+}
+
+func zzBuild(t reflect.Type, n *zzNode) reflect.Value {
+	switch n.Kind {
+	case "nil", "opaque":
+		return reflect.Zero(t)
+	case "bool":
+		v := reflect.New(t).Elem()
+		v.SetBool(n.Bool)
+		return v
+	case "int":
+		v := reflect.New(t).Elem()
+		i, _ := strconv.ParseInt(n.Int, 10, 64)
+		v.SetInt(i)
+		return v
+	case "uint":
+		v := reflect.New(t).Elem()
+		u, _ := strconv.ParseUint(n.Int, 10, 64)
+		v.SetUint(u)
+		return v
+	case "string":
+		b := make([]byte, len(n.Str))
+		for i, c := range n.Str {
+			b[i] = byte(c)
+		}
+		v := reflect.New(t).Elem()
+		v.SetString(string(b))
+		return v
+	case "slice":
+		v := reflect.MakeSlice(t, len(n.Elems), len(n.Elems))
+		for i, e := range n.Elems {
+			v.Index(i).Set(zzBuild(t.Elem(), e))
+		}
+		return v
+	case "ptr":
+		id := n.Dyn + "@" + strconv.FormatInt(n.Ref, 10)
+		if o, ok := zzObjs[id]; ok {
+			return o
+		}
+		p := reflect.New(t.Elem())
+		zzObjs[id] = p
+		zzIDs[p.Pointer()] = id
+		zzFill(p.Elem(), n)
+		return p
+	case "iface":
+		// find the concrete type by name among the known ones
+		ct, ok := zzTypes[n.Dyn]
+		if !ok {
+			panic("zz: unknown dynamic type " + n.Dyn)
+		}
+		v := reflect.New(t).Elem()
+		v.Set(zzBuild(ct, n.Val))
+		return v
+	}
+	panic("zz: cannot build " + n.Kind)
+}
+
+func zzEnc(v reflect.Value) any {
+	switch v.Kind() {
+	case reflect.Bool:
+		return v.Bool()
+	case reflect.Int, reflect.Int8, reflect.Int16, reflect.Int32, reflect.Int64:
+		return strconv.FormatInt(v.Int(), 10)
+	case reflect.Uint, reflect.Uint8, reflect.Uint16, reflect.Uint32, reflect.Uint64, reflect.Uintptr:
+		return strconv.FormatUint(v.Uint(), 10)
+	case reflect.String:
+		return "s:" + v.String()
+	case reflect.Ptr:
+		if v.IsNil() {
+			return "nil"
+		}
+		if id, ok := zzIDs[v.Pointer()]; ok {
+			return "ptr:" + id
+		}
+		return "ptr:fresh"
+	case reflect.Slice:
+		if v.IsNil() {
+			return "nil"
+		}
+		es := []any{}
+		for i := 0; i < v.Len(); i++ {
+			es = append(es, zzEnc(v.Index(i)))
+		}
+		return es
+	case reflect.Interface:
+		if v.IsNil() {
+			return "nil"
+		}
+		return map[string]any{"dyn": v.Elem().Type().String(), "val": zzEnc(v.Elem())}
+	}
+	return "?"
+}
+
+var zzTypes = map[string]reflect.Type{}
+
+func TestZZVerifReplay(t *testing.T) {
+@TYPES@
+	var zzArgs []*zzNode
+	if err := json.Unmarshal([]byte(@ARGS@), &zzArgs); err != nil {
+		t.Fatal(err)
+	}
+	res := map[string]any{}
+	func() {
+		defer func() {
+			if r := recover(); r != nil {
+				res["panic"] = fmt.Sprint(r)
+			}
+		}()
+@BODY@
+	}()
+	res["results"] = zzOut
+	b, _ := json.Marshal(res)
+	fmt.Println("ZZREPLAY:" + string(b))
+}
+`
+
+func zeroNode(w *World, t types.Type) *node {
+	switch u := types.Unalias(t).Underlying().(type) {
+	case *types.Basic:
+		switch {
+		case u.Info()&types.IsBoolean != 0:
+			return &node{Kind: "bool"}
+		case u.Info()&types.IsString != 0:
+			return &node{Kind: "string", Str: []int{}}
+		case u.Info()&types.IsUnsigned != 0:
+			return &node{Kind: "uint", Int: "0"}
+		case u.Info()&types.IsInteger != 0:
+			return &node{Kind: "int", Int: "0"}
+		}
+	case *types.Struct:
+		return &node{Kind: "opaque"}
+	}
+	return &node{Kind: "nil"}
 }
